@@ -30,7 +30,12 @@
 #include <arpa/inet.h>
 #include <net/if.h>
 #include <linux/if_tun.h>
+#ifdef __SANITIZE_ADDRESS__
 #include <sanitizer/asan_interface.h>
+#else   /* memcheck build: no ASan runtime */
+#define __asan_poison_memory_region(p, n) ((void)(p), (void)(n))
+#define __asan_unpoison_memory_region(p, n) ((void)(p), (void)(n))
+#endif
 
 #ifdef SHIM_SERVER
 #include "common.h"
